@@ -68,9 +68,12 @@ fn subst(s: &str, cwd: &Path) -> String {
 pub fn run_call(step: &Value, cwd: &Path) -> String {
     let ty = step["ty"].as_str().unwrap();
     let entry = step["entry"].as_str().unwrap();
-    match step.get("env").and_then(Value::as_str) {
-        Some(v) => std::env::set_var("TS_RS_EXPORT_DIR", subst(v, cwd)),
-        None => std::env::remove_var("TS_RS_EXPORT_DIR"),
+    // concurrent runs must not touch the process environment (setenv races with getenv)
+    if step.get("env_skip").and_then(Value::as_bool) != Some(true) {
+        match step.get("env").and_then(Value::as_str) {
+            Some(v) => std::env::set_var("TS_RS_EXPORT_DIR", subst(v, cwd)),
+            None => std::env::remove_var("TS_RS_EXPORT_DIR"),
+        }
     }
     let e = find(ty);
     let dir = step.get("dir").and_then(Value::as_str).map(|d| subst(d, cwd));
